@@ -31,12 +31,21 @@ type bufferPool struct {
 func (b *bufferPool) Get() *bytes.Buffer {
 	if buffer, ok := b.Pool.Get().(*bytes.Buffer); ok {
 		buffer.Reset()
+		verifPoolGet(buffer)
+		return buffer
+	}
+	if verifEnabled {
+		buffer := bytes.NewBuffer(make([]byte, 0, initialBufferSize))
+		verifPoolGet(buffer)
 		return buffer
 	}
 	return bytes.NewBuffer(make([]byte, 0, initialBufferSize))
 }
 
 func (b *bufferPool) Put(buffer *bytes.Buffer) {
+	if verifPoolPut(buffer) {
+		return
+	}
 	if buffer.Cap() > maxRecycleBufferSize {
 		return
 	}
@@ -48,6 +57,11 @@ func (b *bufferPool) Wrap(data []byte, orig *bytes.Buffer) *bytes.Buffer {
 		// Original buffer was too small, so we had to grow its slice to
 		// compute data.  Replace the buffer with the larger,
 		// newly-allocated slice.
+		if verifEnabled {
+			result := bytes.NewBuffer(data)
+			verifPoolWrap(data, orig, result)
+			return result
+		}
 		return bytes.NewBuffer(data)
 	}
 	// The buffer from the pool was large enough so no growing was necessary.
@@ -56,5 +70,6 @@ func (b *bufferPool) Wrap(data []byte, orig *bytes.Buffer) *bytes.Buffer {
 	// same slice.
 	orig.Reset()
 	orig.Write(data)
+	verifPoolWrap(data, orig, orig)
 	return orig
 }
